@@ -66,6 +66,9 @@ def run(run):
             if unary is False and run.evaluations % 3 == 0:
                 from concepts import Context
                 alt = ['q%d' % ((j * 31 + 5) % 211) for j in range(pc.m)]
+                # labels that are awkward for a renderer / dispatcher: empty, percent signs, blanks
+                for j, awkward in zip(run.rng.sample(range(pc.m), min(pc.m, 4)), ['%s', '', '5% off', '%(x)d %%']):
+                    alt[j] = awkward
                 with guard(run, 'relations() of a relabelled copy', [pc.line, r], ans):
                     twin = Context(pc.objects, alt, pc.bools)
                     rt = twin.relations()
